@@ -10,3 +10,5 @@ import CheetahModel.Properties.C16
 #print axioms C16.corrector_pieces
 #print axioms C16.unsplittable
 #print axioms C16.split_forwards_everything
+#print axioms C16.vector_lengths
+#print axioms C16.vector_at_least_one_piece
